@@ -47,6 +47,14 @@ def gen_states(rng, cfg, k):
         elif op == 'erap': lines.append(f'erap {a} {rng.randrange(0, 64)}')
         else: lines.append(f'{op} {a} {rng.randrange(dom)}')
     lines.append('new')
+    if cfg.cmp == 'mix':
+        # comparator objects in different states (v % 7, v % 10, v % 13): spread the keys so that the orders really differ
+        def remap(l):
+            t = l.split()
+            if t[0] in ('ins', 'era', 'find') and len(t) == 3: t[2] = str(int(t[2]) * 3 + 5)
+            elif t[0] == 'xfer' and len(t) == 4: t[3] = str(int(t[3]) * 3 + 5)
+            return ' '.join(t)
+        lines = [remap(l) for l in lines]
     return lines
 
 def run(ctx):
@@ -70,7 +78,6 @@ def run(ctx):
     SC.run(ctx, scommon.small_cfgs(ctx.tier), gen, n, use_cmps=False, nontrivial=nontrivial, label='C04 history')
     SC.run(ctx, scommon.small_cfgs(ctx.tier), gen_states, n, use_cmps=False,
            nontrivial=lambda cfg, lines, obs: any(l.startswith('cmp') or l.startswith('mrg') for l in lines), label='C04 directed states')
-    ctx.assume('merge between SmallSets of different N / comparator / backing set type is not exercised by the harness yet')
 
 def replay(ctx, path):
     return SC.replay_file(path, use_cmps=False)
